@@ -353,7 +353,7 @@ class World:
 
         def v_float(x=0.0):
             if _is_sym(x):
-                raise Escape("float() of symbolic int")
+                return SymRat(x.t, 1)
             return float(x)
 
         def v_import(name, globals=None, locals=None, fromlist=(), level=0):
@@ -502,6 +502,22 @@ def _unproxy(t):
     if isinstance(t, tuple):
         return tuple(_unproxy(x) for x in t)
     return t
+
+
+class SymRat:
+    """float(<symbolic int>) and its quotient by a concrete power of two: an exact rational
+    num/den (the only float arithmetic applied to secret values: LinCombFxp.remove_scaling)."""
+
+    def __init__(self, num, den):
+        self.num, self.den = num, den
+
+    def __truediv__(self, o):
+        if isinstance(o, int) and not _is_sym(o) and o > 0:
+            return SymRat(self.num, self.den * o)
+        raise Escape("arithmetic on float(symbolic) other than division by a positive int")
+
+    def __repr__(self):
+        return "<symrat /%d>" % self.den
 
 
 class SymBytes:
